@@ -17,6 +17,7 @@ Driver for correspondence stream `ml` (property C15).  Requests:
   matvec  <bs> <bidx> <data> <x>          -> ints
   asmat   <bs> <bidx> <data>              -> triples
   rav     <arrays> <dims>                 -> list
+  kronp   <restrict> <As> <rows>          -> triples   (utils.kron_partial; A = m n <list of i j v>)
 where <bs>, a pattern = length-prefixed list of `a b` pairs, <bidx> = list of patterns.
 `asCoded` for the nd odometer is chosen by the first token suffix: `nonzero!`/`nznd!` = as in the
 pinned source (bidx_ptr[0][1]); without `!` the repaired initialisation.
@@ -78,6 +79,11 @@ def request : P String := do
   | "asmat" => do
       let S ← pStruct; let d ← list int
       pure (showList (fun (t : Nat × Nat × Int) => s!"{t.1},{t.2.1},{t.2.2}") (S.asmatrix d))
+  | "kronp" => do
+      let restrict ← bool
+      let As ← list (do let m ← nat; let n ← nat; let e ← list (do let i ← nat; let j ← nat; let v ← int; pure (i, j, v)); pure ({ m := m, n := n, ent := e } : SpMat))
+      let rows ← list nat
+      pure (showList (fun (t : Nat × Nat × Int) => s!"{t.1},{t.2.1},{t.2.2}") (kronPartial As rows restrict))
   | "rav" => do let a ← list (list nat); let d ← list nat; pure (showNats (ravCart a d))
   | _ => failure
 
